@@ -148,6 +148,9 @@ def reentrancy_rule(ctx: Ctx, rule: str) -> None:
 
 
 def run(ctx: Ctx) -> None:
+    from .c02 import wait_budget
+
+    ctx.call(wait_budget, "12")
     ctx.call(T.t_a1, "1/T.A1")
     ctx.call(T.t_a1_owner, "2")
     ctx.call(T.t_p1, "3/T.P1")
